@@ -21,7 +21,11 @@ RULE = (
     ">= 2 PSMs (competition actually happens); the whole destination directory (file set; rows and q-values of every "
     "file in file order) is compared with the model of the loop over collections; roll-up tool cases = (--level value, "
     "text or Parquet result files of 1-3 collections, optionally one unsorted input file, optionally a second run with "
-    "destination = source); compute_rollup_levels on the default and on random parent maps"
+    "destination = source); compute_rollup_levels on the default and on random parent maps; second pass: result file "
+    "root, omitted prefixes, lower-is-better scores, fractional / wide scores, all-target and all-decoy tables, one-PSM "
+    "tables, a numeric spectrum column written partly without decimals, a second call with append_to_output_file=True "
+    "(whole directory vs the model of both calls), the score vector attached chunk-wise in the model (levelfilesraw), "
+    "score vectors of the wrong length, roll-up tool with small writer buffers / reader chunks and file-root names"
 )
 
 LEVELS = ("ModifiedPeptide", "Precursor", "PeptideGroup")
@@ -48,6 +52,22 @@ def gen_case(rng, tier):
     )
     case["center"] = rng.random() < 0.5
     case["collide"] = rng.random() < 0.5
+    # second pass: options / input shapes that were never generated (drawn after everything else was drawn first,
+    # from a generator of their own, so that the cases of earlier seeds stay what they were)
+    r2 = __import__("random").Random(case["data_seed"] ^ 0x5EC0D)
+    if r2.random() < 0.12:
+        case["n_spectra"] = 1 if r2.random() < 0.5 else 2           # one-PSM / two-spectra tables
+    case["file_root"] = "run1." if r2.random() < 0.3 else ""
+    case["labels"] = r2.choice(["mixed"] * 17 + ["all-target", "all-target", "all-decoy"])
+    case["score_form"] = r2.choice(["int"] * 6 + ["frac"] * 2 + ["wide"] * 2)
+    case["desc"] = r2.random() >= 0.2                                # False: lower scores are better
+    case["mass_text"] = "mixed" if (case["fmt"] == "pin" and "ExpMass" in case["optional"] and r2.random() < 0.3) else "plain"
+    case["append2"] = r2.random() < 0.2                               # a second call appending to the files of the first
+    case["omit_prefixes"] = r2.random() < 0.4                        # (only when no collection has a prefix)
+    # peptides whose names read as numbers to Python (`float("INF") == float("INFINITY")`): distinct entities all the
+    # same.  Parquet input only: a *text* chunk whose peptide cells all read as numbers is parsed as a float column by
+    # pandas and comes back as `inf` (GAPS-C03.md O9(b), an observation, not a gating case)
+    case["pep_names"] = "numeric-words" if r2.random() < 0.25 else "plain"
     if ncoll > 1 and rng.random() < 0.3:
         # some collections with a prefix of their own, the others sharing the un-prefixed files
         mask = [rng.random() < 0.5 for _ in range(ncoll)]
@@ -62,21 +82,38 @@ def gen_case(rng, tier):
     case["ties"] = case["tie_mode"] != "none"
     # the PEP kernel (C06) is stubbed on most small tables, where the estimators are degenerate
     case["pep"] = "real" if (n_spec >= 20 and rng.random() < 0.5) else "stub"
+    if case["labels"] != "mixed" or case["n_spectra"] < 3:
+        case["pep"] = "stub"
     return case
 
 
-def build_tables(case):
+SCORE_UNIT = {"int": 1.0, "frac": 1.0 / 1024, "wide": float(1 << 21)}    # all exact in binary64 and in decimal text
+
+
+def build_tables(case, call=0):
+    """tables and score vectors of one call: [(df, score)]; `call=1` = the tables of the second (appending) call.
+    `score` is what the result files must show; the model sees `score / SCORE_UNIT[score_form]` (an integer)"""
     import random
 
-    r = random.Random(case["data_seed"])
+    r = random.Random(case["data_seed"] + call)
     tabs = []
+    tfrac = {"all-target": 1.0, "all-decoy": 0.0}.get(case.get("labels", "mixed"), 0.5)
     for k in range(case["ncoll"]):
         df = mkdata.make_psm_table(
             r, n_spectra=case["n_spectra"], max_per_spectrum=case["max_per"], n_feat=2, label_enc=case["enc"],
             optional=case["optional"], level_cols=tuple(case["levels"]), n_peptides=case["npep"], signal=3.0,
-            rowid=False,
+            rowid=False, target_frac=tfrac,
         )
-        df["SpecId"] = [f"c{k}_{i}" for i in range(len(df))]
+        df["SpecId"] = [f"c{k + call * case['ncoll']}_{i}" for i in range(len(df))]
+        if case.get("pep_names") == "numeric-words" and case["npep"] >= 4 and case["fmt"] == "parquet":
+            other = {"PEP0K": "INF", "PEP1K": "INFINITY"}
+            if any(p_ not in other and not str(p_).startswith("decoy_") for p_ in df["Peptide"]):
+                df["Peptide"] = [other.get(p_, p_) for p_ in df["Peptide"]]
+        if case.get("mass_text") == "mixed" and "ExpMass" in df.columns:
+            # a numeric spectrum column in which some values have a fractional part and the others are written
+            # without decimals (`write_pin_text`): the spectra stay what they are, whatever a chunk's dtype is
+            half = {sc: r.random() < 0.4 for sc in sorted(set(df["ScanNr"]))}
+            df["ExpMass"] = [float(m) + (0.5 if half[sc] else 0.0) for sc, m in zip(df["ScanNr"], df["ExpMass"])]
         if case.get("collide") and tuple(case["optional"]) == ("ExpMass",):
             # distinct spectra whose key columns agree once written next to each other without a separator
             # ((1, 11.0) / (11, 1.0), (12, 345.5) / (123, 45.5), ...): they must still compete separately
@@ -110,8 +147,39 @@ def build_tables(case):
         if case.get("center"):
             # scores straddling zero, one of them exactly 0.0 (a falsy maximum must not be mistaken for "no row yet")
             score = score - sorted(score)[len(score) // 2]
+        # fractional (dyadic) scores / scores beyond 2^24 (a narrower float type would merge neighbours)
+        score = score * SCORE_UNIT[case.get("score_form", "int")]
         tabs.append((df, score))
     return tabs
+
+
+def model_score(case, score):
+    """the integer score vector the Lean model is given (same order, same ties as `score`)"""
+    return score / SCORE_UNIT[case.get("score_form", "int")]
+
+
+def write_pin_text(df, path, mixed):
+    """PIN text file; with `mixed`, whole numbers of the ExpMass column are written without decimals (`500`) next to
+    values with decimals (`345.5`) - a variant of mkdata.write_table for text files"""
+    if not mixed or "ExpMass" not in df.columns:
+        return mkdata.write_table(df, path)
+    out = df.copy()
+    out["ExpMass"] = [str(int(v)) if float(v) == int(v) else repr(float(v)) for v in df["ExpMass"]]
+    out.to_csv(path, sep="\t", index=False)
+    return path
+
+
+def read_result(path):
+    """pipeline.read_result, but the identifier / peptide / protein columns of a text result file stay text (a file whose
+    only peptide is `INF` would otherwise be read back as a float column by the harness itself)"""
+    from pathlib import Path
+
+    path = Path(path)
+    if not path.exists() or path.suffix == ".parquet":
+        return P.read_result(path)
+    text = {c: str for c in ("PSMId", "psm_id", "peptide", "proteinIds", "ModifiedPeptide", "modified_peptide", "Precursor",
+                             "precursor", "PeptideGroup", "peptide_group")}
+    return pd.read_csv(path, sep="\t", float_precision="round_trip", dtype=text)
 
 
 def csize(v, n):
@@ -124,11 +192,12 @@ def merged_level(t, d):
     return [r for r, _ in sorted(rows, key=lambda x: -x[0]["score"])]
 
 
-def check_collection(chk, case, k, df, score, files, level_names, lines_out):
+def check_collection(chk, case, k, df, score, files, level_names, lines_out, nmax=None):
     """compare one collection's result files with spec and model. `files[level] = (targets_df, decoys_df|None)`"""
     spectrum_cols = [c for c in ("filename", "ScanNr", "ret_time", "ExpMass") if c in df.columns]
     level_cols = ["Peptide"] + case["levels"] if case["rollup"] else []
-    rows = P.table_rows(df, spectrum_cols, level_cols, score)
+    mscore = model_score(case, score)
+    rows = P.table_rows(df, spectrum_cols, level_cols, mscore)
     byid = {sid: i for i, sid in enumerate(df["SpecId"])}
     problems = []
     lvl_rows = {}
@@ -161,8 +230,12 @@ def check_collection(chk, case, k, df, score, files, level_names, lines_out):
             out[which] = recs
         lvl_rows[lname] = out
     # spec + model via the driver
-    cconf = csize(case["cconf"], len(df))
-    reqs = [req("conf", cconf, case["dedup"], len(level_cols), rows)]
+    cconf = csize(case["cconf"], nmax or len(df))
+    desc = bool(case.get("desc", True))
+    # the caller's view: table without scores + the score vector as given (negated when lower is better)
+    given = [int(x) if desc else -int(x) for x in mscore]
+    reqs = [req("conf", cconf, case["dedup"], len(level_cols), rows),
+            req("levelfilesraw", cconf, case["dedup"], len(level_cols), desc, [r[:4] + [0] for r in rows], given)]
     plan = []
     if case["decoys"]:
         psm_out = merged_level(lvl_rows["psms"]["t"], lvl_rows["psms"]["d"])
@@ -183,9 +256,10 @@ def check_collection(chk, case, k, df, score, files, level_names, lines_out):
     model = dec(resp[0])
     m_psm = [int(x) for x in model[0]]
     m_lv = [[int(x) for x in lv] for lv in model[1]]
+    raw = None if resp[1].strip().startswith("reject") else [[(int(i), int(sc)) for i, sc in lv] for lv in dec(resp[1])]
     spec_ok = not problems
     clause = None
-    for (kind, lname), r in zip(plan, resp[1:]):
+    for (kind, lname), r in zip(plan, resp[2:]):
         if kind == "levelspec":
             if r.strip() != "T":
                 spec_ok = False
@@ -209,6 +283,11 @@ def check_collection(chk, case, k, df, score, files, level_names, lines_out):
         clause = f"{problems[0][0]} at level {problems[0][1]}"
     # model comparison (exact when tie-free; targets only when the decoy files are not written)
     model_ok = True
+    raw_ok = True
+    if raw is None:
+        raw_ok = False                  # the model of the chunk-wise score attachment raises, the real code did not
+    elif any(sc != int(mscore[i]) for lv in raw for i, sc in lv):
+        raw_ok = False                  # a row of the model carries another row's score
     if not case["ties"]:
         mlv = {"psms": m_psm, **{ln: m_lv[l] for l, ln in enumerate(level_names[1:])}}
         for lname in level_names:
@@ -218,6 +297,13 @@ def check_collection(chk, case, k, df, score, files, level_names, lines_out):
             got_d = [r["i"] for r in lvl_rows[lname]["d"]]
             if got_t != want_t or (case["decoys"] and got_d != want_d):
                 model_ok = False
+        if raw is not None:
+            # the same comparison with the model that starts from (table, score vector, direction)
+            for l, lname in enumerate(level_names):
+                ids = [i for i, _ in raw[l]] if l < len(raw) else None
+                if ids is None or [r["i"] for r in lvl_rows[lname]["t"]] != [i for i in ids if rows[i][3]] or (
+                        case["decoys"] and [r["i"] for r in lvl_rows[lname]["d"]] != [i for i in ids if not rows[i][3]]):
+                    raw_ok = False
         if not case["decoys"] and model_ok:
             # q-values of the targets file against the model's level rows
             qreq = [req("levelq", [rows[i] for i in mlv[ln]]) for ln in level_names]
@@ -260,35 +346,51 @@ def check_collection(chk, case, k, df, score, files, level_names, lines_out):
     chk.case(None, key, sample=dict(case={k_: str(v) for k_, v in case.items()}, n_rows=len(df),
                                     psms_out=len(lvl_rows["psms"]["t"]) + len(lvl_rows["psms"]["d"])))
     if not spec_ok:
-        chk.spec_violation("level-spec" if "q-value" not in (clause or "") else "level-qvalues", info)
+        sig = "level-spec" if "q-value" not in (clause or "") else "level-qvalues"
+        if {"INF", "INFINITY"} & set(df["Peptide"]):
+            sig += ":peptides-INF-INFINITY"       # names that read as numbers (see GAPS-C03.md, second pass, O9)
+        chk.spec_violation(sig, info)
     elif not model_ok:
         chk.corr_break("conf", info)
+    elif not raw_ok:
+        chk.corr_break("levelfilesraw", dict(info, raw=raw))
 
 
-def check_directory(chk, case, tabs, out, prefixes, level_names, cconf):
+def check_directory(chk, case, tabs, out, prefixes, level_names, cconf, tabs2=None):
     """whole destination directory vs the model of the loop over collections (`confrun`: chunked sort, modelled
     merge_sort, batched scan, chunk-wise writer, initialise/append per prefix): the set of result files, and - when
-    tie-free - every file's rows and q-values in file order (collections without prefix share files)."""
+    tie-free - every file's rows and q-values in file order (collections without prefix share files).  With `tabs2`
+    (a second call with append_to_output_file=True on the same directory) the model is `confcalls`: both calls."""
     nlev = len(level_names) - 1
     level_cols = ["Peptide"] + case["levels"] if case["rollup"] else []
-    colls, offs, off = [], [], 0
-    for k, (df, score) in enumerate(tabs):
-        spectrum_cols = [c for c in ("filename", "ScanNr", "ret_time", "ExpMass") if c in df.columns]
-        rows = P.table_rows(df, spectrum_cols, level_cols, score)
-        colls.append([k if prefixes[k] else -1, [[r[0] + off] + r[1:] for r in rows]])
-        offs.append(off)
-        off += len(df)
-    resp = common.driver_batch([req("confrun", cconf, case["dedup"], nlev, case["decoys"], colls)])[0].strip()
+    root = case.get("file_root", "")
+    calls, offs, off = [], [], 0
+    for tb in ([tabs] if tabs2 is None else [tabs, tabs2]):
+        colls = []
+        for k, (df, score) in enumerate(tb):
+            spectrum_cols = [c for c in ("filename", "ScanNr", "ret_time", "ExpMass") if c in df.columns]
+            rows = P.table_rows(df, spectrum_cols, level_cols, model_score(case, score))
+            colls.append([k if prefixes[k] else -1, [[r[0] + off] + r[1:] for r in rows]])
+            offs.append(off)
+            off += len(df)
+        calls.append(colls)
+    if tabs2 is None:
+        op = "confrun"
+        resp = common.driver_batch([req(op, cconf, case["dedup"], nlev, case["decoys"], calls[0])])[0].strip()
+    else:
+        op = "confcalls"
+        resp = common.driver_batch([req(op, cconf, case["dedup"], nlev, case["decoys"],
+                                        [[False, calls[0]], [True, calls[1]]])])[0].strip()
     if resp.startswith("reject"):
-        chk.corr_break("confrun", dict(case=case, model=resp, clause="model raises, real code did not"))
+        chk.corr_break(op, dict(case=case, model=resp, clause="model raises, real code did not"))
         return
     model = {}
     for pre, dec_, lvl, lines in dec(resp):
-        nm = (f"p{pre}." if int(pre) >= 0 else "") + ("decoys." if a_bool(dec_) else "targets.") + level_names[int(lvl)]
+        nm = root + (f"p{pre}." if int(pre) >= 0 else "") + ("decoys." if a_bool(dec_) else "targets.") + level_names[int(lvl)]
         model[nm] = None if lines == "absent" else [(int(i), rounded(a_rat(q))) for i, q in lines]
     want_names = {nm for nm, v in model.items() if v is not None}
     # restated independently: per prefix (or once without prefixes) and level one targets file, a decoys file iff asked
-    spec_names = {(f"{pre}." if pre else "") + w + ln for pre in set(prefixes) for ln in level_names
+    spec_names = {root + (f"{pre}." if pre else "") + w + ln for pre in set(prefixes) for ln in level_names
                   for w in (("targets.", "decoys.") if case["decoys"] else ("targets.",))}
     got_names = {f.name for f in out.iterdir()}
     if got_names != spec_names:
@@ -296,19 +398,18 @@ def check_directory(chk, case, tabs, out, prefixes, level_names, cconf):
                            "decoys) file per prefix and level", impl=sorted(got_names), expected=sorted(spec_names)))
         return
     if want_names != spec_names:
-        chk.corr_break("confrun", dict(case=case, model=sorted(want_names), impl=sorted(got_names)))
+        chk.corr_break(op, dict(case=case, model=sorted(want_names), impl=sorted(got_names)))
         return
     for nm in sorted(spec_names):
-        f = P.read_result(out / nm)
+        f = read_result(out / nm)
         if "PSMId" not in f.columns or "q-value" not in f.columns or "score" not in f.columns:
             chk.spec_violation("result-file-header", dict(case=case, file=nm, impl=[str(c) for c in f.columns][:8],
                                clause="result file without its header line"))
             return False
-    chk.count("directory_compared", "names+rows" if not case["ties"] else "names")
-    if case["ties"]:
-        return
+    chk.count("directory_compared", ("names+rows" if not case["ties"] else "names") + ("+appended-call" if tabs2 else ""))
+    # which call and collection a row came from is told by its identifier: rows of an earlier call / collection come first
     for nm in sorted(spec_names):
-        f = P.read_result(out / nm)
+        f = read_result(out / nm)
         got, order = [], []
         for sid, q in zip(f["PSMId"].astype(str), f["q-value"]):
             k_, i_ = sid[1:].split("_")
@@ -316,22 +417,31 @@ def check_directory(chk, case, tabs, out, prefixes, level_names, cconf):
             order.append(int(k_))
         if any(a > b for a, b in zip(order, order[1:])):
             chk.spec_violation("collections-order", dict(case=case, file=nm, clause="rows of collections without prefix "
-                               "are not appended collection after collection", impl=order))
+                               "(or of an appending call) are not appended collection after collection", impl=order))
             return
-        if got != model[nm]:
-            chk.corr_break("confrun", dict(case=case, file=nm, impl=got[:40], model=model[nm][:40]))
+        if not case["ties"] and got != model[nm]:
+            chk.corr_break(op, dict(case=case, file=nm, impl=got[:40], model=model[nm][:40]))
             return
 
 
 def run_case(chk, case):
     tabs = build_tables(case)
+    tabs2 = build_tables(case, call=1) if case.get("append2") else None
     n = max(len(df) for df, _ in tabs)
+    root = case.get("file_root", "")
+    desc = bool(case.get("desc", True))
     with P.workdir() as d:
-        datasets, scores = [], []
-        for k, (df, score) in enumerate(tabs):
-            p = mkdata.write_table(df, d / f"in{k}.{case['fmt']}", row_group_size=case["rg"])
-            datasets.append(mkdata.read_dataset(p))
-            scores.append(score)
+        def datasets_of(tb, tag):
+            ds = []
+            for k, (df, _) in enumerate(tb):
+                if case["fmt"] == "pin":
+                    p = write_pin_text(df, d / f"in{tag}{k}.pin", case.get("mass_text") == "mixed")
+                else:
+                    p = mkdata.write_table(df, d / f"in{tag}{k}.{case['fmt']}", row_group_size=case["rg"])
+                ds.append(mkdata.read_dataset(p))
+            return ds
+
+        datasets = datasets_of(tabs, "")
         out = d / "out"
         out.mkdir()
         mask = case.get("prefix_mask")
@@ -340,11 +450,26 @@ def run_case(chk, case):
         prefixes = [f"p{k}" if mask[k] else None for k in range(case["ncoll"])]
         level_cols = ["Peptide"] + case["levels"] if case["rollup"] else []
         level_names = ["psms"] + [P.LEVEL_FILE[c] for c in level_cols]
+        kw = dict(decoys=case["decoys"], deduplication=case["dedup"], do_rollup=case["rollup"])
+        if root:
+            kw["file_root"] = root
+        if not desc:
+            kw["descs"] = [False] * case["ncoll"]          # lower is better: the caller hands over the negated scores
+        omit = bool(case.get("omit_prefixes")) and not any(mask)
+        if not omit:
+            kw["prefixes"] = prefixes                      # (omitted: the documented default, no prefixes)
+
+        def given(tb):
+            return [s_ if desc else -s_ for _, s_ in tb]
+
+        snapshot = None
         try:
             with P.chunk_sizes(confidence=csize(case["cconf"], n), merge=csize(case["cmerge"], n)), \
                     P.pep_kernel(stub=case.get("pep", "stub") == "stub"):
-                P.run_assign_confidence(datasets, scores, out, prefixes=prefixes, decoys=case["decoys"],
-                                        deduplication=case["dedup"], do_rollup=case["rollup"])
+                P.run_assign_confidence(datasets, given(tabs), out, **kw)
+                if tabs2 is not None:
+                    snapshot = {f.name: f.read_bytes() for f in out.iterdir()}
+                    P.run_assign_confidence(datasets_of(tabs2, "b"), given(tabs2), out, append_to_output_file=True, **kw)
         except SystemExit as e:
             chk.reject("pep-estimator-exit:" + str(e)[:40])
             return
@@ -353,37 +478,166 @@ def run_case(chk, case):
             if P.raised_in_pep_kernel(e):
                 chk.reject("pep-estimator:" + type(e).__name__)
                 return
-            chk.spec_violation("exception:" + type(e).__name__, dict(case=case, error=msg[:400],
-                                                                     clause="assign_confidence raised"))
+            chk.case(None, None, sample=dict(case={k_: str(v) for k_, v in case.items()}))
+            chk.spec_violation("exception:" + type(e).__name__,
+                               dict(case=case, error=msg[:400], clause="assign_confidence raised"
+                                    + (" (called without the `prefixes` argument)" if omit else "")))
             return
         chk.count("fmt", case["fmt"]); chk.count("dedup", case["dedup"]); chk.count("rollup", case["rollup"])
         chk.count("decoys", case["decoys"]); chk.count("ties", case["ties"]); chk.count("ncoll", case["ncoll"])
         chk.count("prefixes", "mixed" if (any(mask) and not all(mask)) else case["prefixes"]); chk.count("cconf", str(case["cconf"])); chk.count("scores_straddle_zero", bool(case.get("center")))
         chk.count("cmerge", str(case["cmerge"])); chk.count("nlevels", len(level_names))
         chk.count("tie_mode", case.get("tie_mode", "any" if case["ties"] else "none"))
+        chk.count("file_root", root or "none"); chk.count("labels", case.get("labels", "mixed"))
+        chk.count("score_form", case.get("score_form", "int")); chk.count("higher_is_better", desc)
+        chk.count("mass_text", case.get("mass_text", "plain")); chk.count("second_call_appending", tabs2 is not None)
+        chk.count("prefixes_argument", "omitted" if omit else "given"); chk.count("n_spectra", case["n_spectra"])
+        chk.count("peptide_names", "INF/INFINITY" if any({"INF", "INFINITY"} & set(df_["Peptide"]) for df_, _ in tabs) else "plain")
         # leftovers: no intermediate files (also C09)
         left = [f.name for f in out.iterdir() if "scores_metadata" in f.name or f.name.split(".")[-1] in ("pin", "parquet")]
         if left:
             chk.spec_violation("intermediates-left", dict(case=case, files=left, clause="intermediate files remain"))
-        if check_directory(chk, case, tabs, out, prefixes, level_names, csize(case["cconf"], n)) is False:
+        if snapshot is not None:
+            # append_to_output_file=True: whatever the earlier call wrote is still there, byte for byte, at the start
+            for nm, old in sorted(snapshot.items()):
+                f = out / nm
+                if not f.exists() or not f.read_bytes().startswith(old):
+                    chk.case(None, None, sample=dict(case={k_: str(v) for k_, v in case.items()}))
+                    chk.spec_violation("append-lost-earlier-results", dict(case=case, file=nm, clause="after a call with "
+                                       "append_to_output_file=True a result file no longer starts with what the earlier "
+                                       "call had written"))
+                    return
+        if check_directory(chk, case, tabs, out, prefixes, level_names, csize(case["cconf"], n), tabs2) is False:
             return
-        for k, (df, score) in enumerate(tabs):
+        ncoll = case["ncoll"]
+        for kk, (df, score) in enumerate(tabs + (tabs2 or [])):
+            k = kk % ncoll
             files = {}
             for ln in level_names:
-                pre = f"{prefixes[k]}." if prefixes[k] else ""
-                t = P.read_result(out / f"{pre}targets.{ln}")
-                dd = P.read_result(out / f"{pre}decoys.{ln}")
+                pre = root + (f"{prefixes[k]}." if prefixes[k] else "")
+                t = read_result(out / f"{pre}targets.{ln}")
+                dd = read_result(out / f"{pre}decoys.{ln}")
                 if t is None:
                     chk.spec_violation("missing-file", dict(case=case, file=f"{pre}targets.{ln}", clause="result file missing"))
                     return
                 if not case["decoys"] and dd is not None:
                     chk.spec_violation("decoys-written", dict(case=case, clause="decoys file written although decoys=False"))
                     return
-                if not prefixes[k]:  # collections without prefix share files: split by identifier
-                    t = t[t["PSMId"].astype(str).str.startswith(f"c{k}_")]
-                    dd = dd[dd["PSMId"].astype(str).str.startswith(f"c{k}_")] if dd is not None else None
+                if not prefixes[k] or tabs2 is not None:
+                    # collections without prefix share files, an appending call adds to them: split by identifier
+                    t = t[t["PSMId"].astype(str).str.startswith(f"c{kk}_")]
+                    dd = dd[dd["PSMId"].astype(str).str.startswith(f"c{kk}_")] if dd is not None else None
                 files[ln] = (t, dd)
-            check_collection(chk, case, k, df, score, files, level_names, None)
+            check_collection(chk, case, kk, df, score, files, level_names, None, nmax=n)
+
+
+def run_badscores(chk, rng):
+    """score vector whose length differs from the table's (a caller's error: the property promises nothing).  The code
+    pairs table chunks and score slices with `zip`, so what happens depends on the chunk size: the model of that loop
+    (`levelfilesraw`) must raise exactly when the real code does and, when neither does, retain the same PSMs."""
+    import random
+
+    n_spec = rng.choice([4, 6, 9])
+    c = rng.choice([1, 2, 3, 5])
+    delta = rng.choice([-5, -4, -3, -2, -1, 1, 2, 3, 5])
+    seed = rng.randrange(1 << 30)
+    r = random.Random(seed)
+    df = mkdata.make_psm_table(r, n_spectra=n_spec, max_per_spectrum=2, n_feat=2, optional=("ExpMass",), rowid=False)
+    df["SpecId"] = [f"c0_{i}" for i in range(len(df))]
+    n = len(df)
+    m = max(0, n + delta)
+    score = np.array([float(r.randrange(-50, 50) * 64 + i) for i in range(m)])
+    rows = P.table_rows(df, ["ScanNr", "ExpMass"], ["Peptide"], np.zeros(n))
+    mresp = common.driver_batch([req("levelfilesraw", c, True, 1, True, rows, [int(x) for x in score])])[0].strip()
+    case = dict(kind="score-vector-length", n_rows=n, n_scores=m, chunk=c, data_seed=seed)
+    chk.case(None, ("badscores", n, m, c), sample=case)
+    with P.workdir() as d:
+        ds = mkdata.read_dataset(mkdata.write_table(df, d / "in.pin"))
+        out = d / "out"; out.mkdir()
+        try:
+            with P.chunk_sizes(confidence=c, merge=3), P.pep_kernel(stub=True):
+                P.run_assign_confidence([ds], [score], out, prefixes=[None], decoys=True)
+            raised = None
+        except Exception as e:
+            raised = type(e).__name__
+        if raised is not None:
+            chk.count("score_vector_wrong_length", "raises")
+            if not mresp.startswith("reject"):
+                chk.corr_break("levelfilesraw", dict(case=case, impl="raises " + raised, model=mresp[:200]))
+            else:
+                chk.reject("score-vector-length")
+            return
+        if mresp.startswith("reject"):
+            chk.corr_break("levelfilesraw", dict(case=case, impl="returns", model=mresp))
+            return
+        chk.count("score_vector_wrong_length", "accepted: trailing table chunks ignored")
+        model = [[int(i) for i, _ in lv] for lv in dec(mresp)]
+        got = []
+        for ln in ("psms", "peptides"):
+            t = read_result(out / f"targets.{ln}"); dd = read_result(out / f"decoys.{ln}")
+            recs = [(float(sc), int(sid.split("_")[1])) for f in (t, dd) for sid, sc in zip(f["PSMId"], f["score"])]
+            got.append([i for _, i in sorted(recs, key=lambda x: -x[0])])
+        if got != model:
+            chk.corr_break("levelfilesraw", dict(case=case, impl=got, model=model))
+
+
+KEY_TEXTS = ["500", "500.0", "+500.", "5e2", ".5E+3", "0500", "5000e-1", "345.5", "345.50", "3455e-1", "7", " 7", "7 ", "7.0",
+             "-7", "+7", "1000", "1e3", "1_000", "0", "-0", "0.0", "-0.0", "INF", "INFINITY", "inf", "-inf", "Infinity", "NAN",
+             "nan", "NA", "None", "True", "False", "true", "", ".", "+", "e5", "1e", "1e+", "0x10", "17_b", "PEPTIDEK",
+             "PEP0K", "r1", "r", "11", "1", "12", "[1]", "1, 2", "'a'", 'a"b']
+KEY_NUMS = [(500, 0), (5, 2), (5000, -1), (3455, -1), (7, 0), (70, -1), (-7, 0), (1000, 0), (1, 3), (0, 0), (11, 0), (1, 0), (12, 0),
+            (25, -2), (-25, -2)]
+
+
+def entity_key_check(chk, rng, n):
+    """`mokapot.confidence._entity_key` (the seen-set key of the scan) against the model `confEntityKey`: for pairs of
+    rows of cells - numbers as int or float, texts (numbers in several spellings, words Python's float() accepts,
+    quotes, commas), bools - the two keys are equal in the code iff they are equal in the model; and the model's
+    "plain number" test against an independent restatement of the documented form"""
+    import re
+
+    C = P.mod("mokapot.confidence")
+    if not hasattr(C, "_entity_key"):
+        chk.count("entity-key-function", "absent"); return
+    plain = re.compile(r"[+-]?(?:[0-9]+\.?[0-9]*|\.[0-9]+)(?:[eE][+-]?[0-9]+)?")
+
+    def cell():
+        k = rng.random()
+        if k < 0.55:
+            t = rng.choice(KEY_TEXTS)
+            return t, ["t", t]
+        if k < 0.9:
+            m, e = rng.choice(KEY_NUMS)
+            as_float = e < 0 or rng.random() < 0.5
+            v = float(f"{m}e{e}") if as_float else int(m * 10 ** e)
+            if rng.random() < 0.3:
+                v = (np.float64 if as_float else np.int64)(v)
+            if m == 0 and as_float and rng.random() < 0.5:
+                return -0.0, ["n", 0, 0, True]
+            return v, ["n", m, e, False]
+        b = rng.random() < 0.5
+        return (np.bool_(b) if rng.random() < 0.5 else b), ["b", b]
+
+    cases = []
+    for _ in range(n):
+        w = rng.choice([1, 1, 2, 3])
+        a = [cell() for _ in range(w)]
+        b = [cell() if rng.random() < 0.6 else a[i] for i in range(w)]
+        cases.append((a, b))
+    resp = common.driver_batch([req("entitykeyeq", [c for _, c in a], [c for _, c in b]) for a, b in cases]
+                               + [req("plainnumber", t) for t in KEY_TEXTS])
+    for (a, b), r in zip(cases, resp):
+        impl = C._entity_key([v for v, _ in a]) == C._entity_key([v for v, _ in b])
+        model = r.strip() == "T"
+        chk.case(None, ("entity-key", repr([c for _, c in a]), repr([c for _, c in b])), sample=None)
+        chk.count("entity-key-pairs", "same key" if model else "different keys")
+        if impl != model:
+            chk.corr_break("entitykeyeq", dict(case=dict(kind="entity-key", a=[c for _, c in a], b=[c for _, c in b]),
+                                               impl=impl, model=model))
+    for t, r in zip(KEY_TEXTS, resp[len(cases):]):
+        if (r.strip() == "T") != bool(plain.fullmatch(t)) and t.isascii():
+            chk.corr_break("plainnumber", dict(case=dict(kind="entity-key", text=t), model=r.strip(),
+                                               expected=bool(plain.fullmatch(t))))
 
 
 ROLLUP_LEVELS = [("precursor", "Precursor"), ("modified_peptide", "ModifiedPeptide"), ("peptide", "peptide"),
@@ -470,10 +724,19 @@ def gen_rollup(rng, base=None):
     levels = [c for c in ("ModifiedPeptide", "Precursor", "PeptideGroup") if rng.random() < 0.6]
     if base in BASE_NEEDS and BASE_NEEDS[base] not in levels:
         levels = [c for c in ("ModifiedPeptide", "Precursor", "PeptideGroup") if c in levels or c == BASE_NEEDS[base]]
-    return dict(n_spectra=rng.choice([6, 12, 25]), max_per=rng.choice([1, 2, 3]), levels=levels,
+    case = dict(n_spectra=rng.choice([6, 12, 25]), max_per=rng.choice([1, 2, 3]), levels=levels,
                 ncoll=rng.choice([1, 2, 3]), data_seed=rng.randrange(1 << 30), npep=rng.choice([3, 6, 12]), enc="pm1",
                 optional=("ExpMass",), ties=False, base=base, parquet=rng.random() < 0.3,
                 unsorted=rng.random() < 0.15, rerun=rng.random() < 0.35, tool_ties=rng.random() < 0.3)
+    # second pass: the size-dependent branches of the tool (its writers buffer 1000 rows, its merged reader reads
+    # 10000 rows at a time) are reached by shrinking these constants; result files named by a file root
+    r2 = __import__("random").Random(case["data_seed"] ^ 0x5EC0D)
+    case["buffer"] = r2.choice([None, None, 2, 3, 7])            # None: the tool's own constant
+    case["reader_chunk"] = r2.choice([None, None, 1, 2, 5])
+    case["naming"] = r2.choice(["prefix", "prefix", "root+prefix", "root"])
+    if case["naming"] == "root":
+        case["ncoll"] = 1
+    return case
 
 
 def rollup_case(chk, rng):
@@ -505,33 +768,67 @@ def run_rollup(chk, case):
         else:
             tabs2.append((df, score * 8 + off))           # distinct scores across collections
 
+    buf, rchunk = case.get("buffer"), case.get("reader_chunk")
+
+    @contextlib.contextmanager
+    def tool_constants():
+        """`temp_buffer_size` / `buffer_size` / `reader_chunk_size` are literals inside do_rollup: the names it looks
+        up in its module are wrapped so that a buffered writer gets `buf` rows and the merged reader `rchunk` rows"""
+        real_w, real_r = BR.TabularDataWriter, BR.MergedTabularDataReader
+
+        class SmallBufferWriters:
+            @staticmethod
+            def from_suffix(file_name, columns=None, buffer_size=0, **kw):
+                if buf and buffer_size > 1:
+                    buffer_size = buf
+                return real_w.from_suffix(file_name, columns=columns, buffer_size=buffer_size, **kw)
+
+        def small_chunk_reader(readers, *a, **kw):
+            if rchunk:
+                kw["reader_chunk_size"] = rchunk
+            return real_r(readers, *a, **kw)
+
+        BR.TabularDataWriter, BR.MergedTabularDataReader = SmallBufferWriters, small_chunk_reader
+        try:
+            yield
+        finally:
+            BR.TabularDataWriter, BR.MergedTabularDataReader = real_w, real_r
+
     def tool(src_dir, dest_dir):
         with contextlib.redirect_stdout(io.StringIO()), contextlib.redirect_stderr(io.StringIO()), \
-                P.pep_kernel(stub=True):
+                P.pep_kernel(stub=True), tool_constants():
             BR.main(["--level", base, "-s", str(src_dir), "-d", str(dest_dir), "-r", "roll"])
 
     with P.workdir() as d:
         datasets = [mkdata.read_dataset(mkdata.write_table(df, d / f"in{k}.pin")) for k, (df, _) in enumerate(tabs2)]
         src = d / "src"; src.mkdir(); dest = d / "dest"; dest.mkdir()
+        naming = case.get("naming", "prefix")
+        if naming == "root" and len(tabs2) > 1:
+            naming = "root+prefix"       # collections without prefix share one (then unsorted) file: not an input of the tool
+        froot = "" if naming == "prefix" else "exp."
         with P.pep_kernel(stub=True):
-            P.run_assign_confidence(datasets, [s for _, s in tabs2], src,
-                                    prefixes=[f"p{k}" for k in range(len(tabs2))], decoys=True, do_rollup=True)
-        in_names = [f"p{k}.{w}.{BASE_FILES[base]}" for w in ("targets", "decoys") for k in range(len(tabs2))]
-        if any(P.read_result(src / nm) is None for nm in in_names):
+            P.run_assign_confidence(datasets, [s for _, s in tabs2], src, file_root=froot,
+                                    prefixes=[None if naming == "root" else f"p{k}" for k in range(len(tabs2))],
+                                    decoys=True, do_rollup=True)
+        stems = [froot.rstrip(".")] if naming == "root" else [f"{froot}p{k}" for k in range(len(tabs2))]
+        in_names = [f"{st}.{w}.{BASE_FILES[base]}" for w in ("targets", "decoys") for st in stems]
+        if any(read_result(src / nm) is None for nm in in_names):
             chk.spec_violation("missing-file", dict(case=case, clause="input file of the roll-up tool was not written"))
             return
-        if any(len(P.read_result(src / nm)) == 0 for nm in in_names):
+        if any(len(read_result(src / nm)) == 0 for nm in in_names):
             chk.reject("rollup-input-file-without-rows")   # column types of an empty file cannot be inferred
             return
         sfx = ""
         if case.get("parquet"):
             pqd = d / "pq"; pqd.mkdir(); sfx = ".parquet"
             for nm in in_names:
-                P.read_result(src / nm).to_parquet(pqd / (nm + sfx), index=False)
+                read_result(src / nm).to_parquet(pqd / (nm + sfx), index=False)
             src = pqd
         chk.count("rollup-tool-base", base); chk.count("rollup-tool-input", "parquet" if sfx else "text")
+        chk.count("rollup-tool-writer-buffer", str(buf or "1000 (as is)")); chk.count("rollup-tool-input-names", naming)
+        chk.count("rollup-tool-reader-chunk", str(rchunk or "10000 (as is)"))
         # the rows the tool reads, in the order of its readers: targets files by name, then decoys files
-        frames = [(nm, P.read_result(src / (nm + sfx))) for nm in in_names]
+        frames = [(nm, read_result(src / (nm + sfx))) for nm in in_names]
         cols = [STD_COL.get(c, c) for c in frames[0][1].columns] + ["is_decoy"]
         cands = [ln for ln, _ in ROLLUP_LEVELS if ln in cols]
         incol = {STD_COL.get(c, c): c for c in frames[0][1].columns}
@@ -578,13 +875,18 @@ def run_rollup(chk, case):
             chk.spec_violation("rollup-exception:" + type(e).__name__, dict(case=case, error=str(e)[:300], clause="brew_rollup raised"))
             return
         merged = sorted(allrows, key=lambda r_: -r_[4])
-        resp = common.driver_batch([req("rolluptool", len(cands), merged), req("rolluprun", base, cols, cands, tfiles, dfiles)])
+        resp = common.driver_batch([req("rolluptool", len(cands), merged), req("rolluprun", base, cols, cands, tfiles, dfiles),
+                                    req("rolluprunb", buf or 1000, base, cols, cands, tfiles, dfiles)])
         model = [[int(x) for x in lv] for lv in dec(resp[0])]
         if resp[1].strip().startswith("reject"):
             chk.corr_break("rolluprun", dict(case=case, model=resp[1].strip(), clause="model raises, the tool did not"))
             return
         mrun = {common.a_str(o[0]): ([(int(i), rounded(a_rat(q))) for i, q in o[1]],
                                      [(int(i), rounded(a_rat(q))) for i, q in o[2]]) for o in dec(resp[1])}
+        if resp[2].strip() != resp[1].strip():
+            # the model with the buffered temporary writers (the tool as it runs) against the row-by-row model
+            chk.corr_break("rolluprunb", dict(case=case, model=resp[2].strip()[:300], unbuffered=resp[1].strip()[:300]))
+            return
         # which levels: independent restatement = the level named by --level (as a column name) and every level
         # below it in the documented hierarchy, restricted to the columns present
         base_col = STD_COL.get(base, base)
@@ -609,7 +911,7 @@ def run_rollup(chk, case):
         reqs, plan = [], []
         for ln in sorted(spec_levels):
             l = cands.index(ln)
-            t = P.read_result(dest / f"roll.targets.{ln}s{sfx}"); dd = P.read_result(dest / f"roll.decoys.{ln}s{sfx}")
+            t = read_result(dest / f"roll.targets.{ln}s{sfx}"); dd = read_result(dest / f"roll.decoys.{ln}s{sfx}")
             idcol = "psm_id" if "psm_id" in t.columns else "PSMId"
             got = sorted([(meta[x], True) for x in t[idcol]] + [(meta[x], False) for x in dd[idcol]],
                          key=lambda z: -allrows[z[0]][4])
@@ -619,8 +921,12 @@ def run_rollup(chk, case):
             if not case.get("tool_ties") and [i for i, _ in got] != model[l]:
                 ok_model = False
             # a score tie between a target and a decoy of one entity is never decided for the target
+            best_decoy = {}
+            for r_ in allrows:
+                if not r_[3]:
+                    best_decoy[r_[2][l]] = max(best_decoy.get(r_[2][l], float("-inf")), r_[4])
             for i, tt in got:
-                if tt and any((not r_[3]) and r_[2][l] == allrows[i][2][l] and r_[4] >= allrows[i][4] for r_ in allrows):
+                if tt and best_decoy.get(allrows[i][2][l], float("-inf")) >= allrows[i][4]:
                     ok_spec, clause = False, f"rollup level {ln}: a target represents an entity that has a decoy scoring at least as well"
             qcol = "q_value" if "q_value" in t.columns else "q-value"
             qreq = req("qspec", True, [[Fraction(allrows[i][4]), allrows[i][3]] for i, _ in got])
@@ -651,7 +957,7 @@ def run_rollup(chk, case):
                 ok_spec, clause = False, f"second run with destination = source raised {type(e).__name__}"
             else:
                 for nm in sorted(want_files):
-                    a, b = P.read_result(dest / nm), P.read_result(src / nm)
+                    a, b = read_result(dest / nm), read_result(src / nm)
                     if b is None or not a.equals(b):
                         ok_spec, clause = False, f"second run with destination = source changed {nm}"
         chk.case(None, ("rollup", case["data_seed"], base), sample=dict(rollup=case, levels=sorted(spec_levels)))
@@ -681,8 +987,10 @@ def minimise(chk):
     if not isinstance(case, dict) or "n_spectra" not in case:
         return
     best = dict(case)
-    for field, vals in (("ncoll", [1]), ("n_spectra", [3, 5, 8]), ("levels", [[]]), ("max_per", [2, 3]),
-                        ("fmt", ["pin"]), ("optional", [()]), ("prefixes", [False])):
+    for field, vals in (("append2", [False]), ("ncoll", [1]), ("n_spectra", [3, 5, 8]), ("levels", [[]]), ("max_per", [2, 3]),
+                        ("fmt", ["pin"]), ("optional", [()]), ("prefixes", [False]), ("file_root", [""]),
+                        ("score_form", ["int"]), ("desc", [True]), ("labels", ["mixed"]), ("center", [False]),
+                        ("mass_text", ["plain"])):
         for v in vals:
             trial = dict(best, **{field: v})
             sub = common.Check(chk.prop, chk.tier, chk.seed)
@@ -718,7 +1026,18 @@ def main(chk, args):
                 levels=sorted(set(tied["levels"]) | {"PeptideGroup"},
                               key=("ModifiedPeptide", "Precursor", "PeptideGroup").index))
     run_rollup(chk, tied)
+    if chk.tier == "thorough":
+        # the tool's own constants: a level with more than 1000 entities fills its writer buffer for real
+        big = gen_rollup(chk.rng, "psm")
+        big.update(n_spectra=1300, max_per=1, npep=20000, ncoll=1, unsorted=False, tool_ties=False, rerun=False,
+                   parquet=False, buffer=None, reader_chunk=None, naming="prefix",
+                   levels=["ModifiedPeptide", "Precursor", "PeptideGroup"])
+        run_rollup(chk, big)
+        chk.count("rollup-tool-more-than-1000-entities", 1)
     rollup_levels_check(chk, chk.rng, chk.scale(50 if chk.tier == "quick" else 400))
+    for _ in range(chk.scale(4 if chk.tier == "quick" else 40)):
+        run_badscores(chk, chk.rng)
+    entity_key_check(chk, chk.rng, chk.scale(300 if chk.tier == "quick" else 3000))
     minimise(chk)
     lc = common.leanchecker("C03") if chk.tier == "thorough" else None
     chk.assumptions += [
@@ -730,6 +1049,14 @@ def main(chk, args):
         "result file names enter the model as (prefix, targets/decoys, level): the map prefix -> file name is assumed "
         "injective; the header line of a result file is outside the model",
         "roll-up tool: column names are standardised by the harness's own copy of the documented name map",
+        "scores are generated integer-valued, as multiples of 2^-10 or of 2^21: exact in binary64 and in decimal text "
+        "(scores with 17 significant digits change in the last place when mokapot re-reads its text chunk files - "
+        "see GAPS-C03.md, second pass, O6)",
+        "roll-up tool: the writer buffer (1000 rows) and the reader chunk (10000 rows) are literals inside do_rollup; "
+        "they are shrunk by wrapping the two names do_rollup looks up in its module (quick tier), and reached for real "
+        "once in the thorough tier",
+        "a score vector of the wrong length is a caller's error: only raise / no raise and the retained PSMs are compared "
+        "with the model of the zip of the chunk streams",
     ]
     chk.finish(build, RULE, search=search, lc=lc,
                trusted_extra=["pandas sort_values/drop_duplicates/read_csv/to_csv, pyarrow Parquet, joblib"])
@@ -748,6 +1075,9 @@ def replay(chk, path):
         print(json.dumps(info, indent=1)[:3000])
         return 0
     common.build_and_audit("C03")
+    for f_ in ("levels", "prefix_mask"):
+        if isinstance(case.get(f_), tuple):
+            case[f_] = list(case[f_])
     case["optional"] = tuple(case["optional"])
     if "base" in case:
         run_rollup(chk, case)
